@@ -29,7 +29,14 @@ Templates == <<
   \* ... on the middle line only; a short string continued with backslash-newline and \z
   "--[[ a\n%E%U%E\nz ]] local k = \"a%E\\\n%U\\z\n  b\"\n",
   \* ... on the first line only (comment) / on the last line only (string)
-  "--[[ %U%E\nb\nc ]]\nlocal m3 = [[\nb\n%E%U]]\n"
+  "--[[ %U%E\nb\nc ]]\nlocal m3 = [[\nb\n%E%U]]\n",
+  \* (second seeded round) an UNFINISHED index expression `t[#` on an array-like table whose closing bracket is on a
+  \* FOLLOWING line (directly / after trailing blanks, an empty line and indentation), and the same-line shapes; the
+  \* driver requests completion directly behind every `[#` (the array-append item `#t + 1] = ` carries a text edit that
+  \* must stay on the cursor's line)
+  "local arr = { 1, 2 }\narr[#\n]\n",
+  "local arr2 = { 1 }\narr2[#  \n\n   ] = 3\n",
+  "local arr3 = { \"%E\" }\narr3[#]\narr3[# ]\narr3[#\n"
 >>
 NT == Len(Templates)
 
